@@ -78,8 +78,10 @@ fn embed_all(name: &str, x: &[i64]) -> Option<Vec<f64>> {
 }
 
 const AFF: [(i64, i64); 3] = [(1, 0), (1, -10), (3, -7)];
-/// samples hold integers 1..=7: 7 * 2^1021 < f64::MAX < 2 * 2^1023
-const BIG_EXPS: [i32; 2] = [1021, -1070];
+/// (exponent, shift): the sample x (integers 1..=7) is replayed as (x + shift) * 2^exponent, exactly.  With (1020, 8) every
+/// value lies in [9, 15] * 2^1020 < f64::MAX = (2 - 2^-52) * 2^1023 and the SUM of any two values exceeds f64::MAX while
+/// their mean does not; (-1070, 0) puts the sample among the subnormals.
+const BIG_EXPS: [(i32, i64); 2] = [(1020, 8), (-1070, 0)];
 
 /// exact 2^e for -1074 <= e <= 1023
 fn pow2(e: i32) -> f64 {
@@ -181,14 +183,14 @@ fn seq_record_of(x: &[i64], vals: &[Vec<f64>], with_aff: bool) -> Value {
     // medians of the sample scaled by 2^e (exact, order preserving; the largest values come within a factor 2 of f64::MAX, so the
     // sum of the two central values of an even-sized sample is not representable while their mean is); scaled back before logging
     let mut big_rows = vec![];
-    for e in BIG_EXPS {
+    for (e, shift) in BIG_EXPS {
         if !with_aff {
             break;
         }
         let sc = pow2(e);
-        let v: Vec<f64> = x.iter().map(|t| (*t as f64) * sc).collect();
+        let v: Vec<f64> = x.iter().map(|t| ((*t + shift) as f64) * sc).collect();
         let (ms, md) = match median(&v) {
-            Some(m) => (1, nr(m / sc, 2.0)),
+            Some(m) => (1, nr(m / sc - shift as f64, 2.0)),
             None => (0, (0, 0)),
         };
         big_rows.push(json!([e, ms, md.0, md.1]));
